@@ -665,12 +665,86 @@ var checkKVContextCase = register("c16.kvcontext", func(c KVCase) *Violation {
 	return nil
 })
 
+// LongItemCase: a number item Head + Zeros x "0" + Tail of a thousand or a million characters, as json.Number or
+// as string. Exact decimal arithmetic has limits of its own (big.Rat refuses more than a million fraction
+// digits, D61); whatever a method does beyond them, a text that .double() reads as a small number is a number
+// for .integer() and .bigint() too, and their result is the double rounded or one of its two neighbours.
+// (Every case has its decimal point among the first digits: mantissas of more than 800 digits without one are
+// the class of open finding D58, where .double() itself is wrong.)
+type LongItemCase struct {
+	Head  string `json:"head"`
+	Zeros int    `json:"zeros"`
+	Tail  string `json:"tail"`
+	Str   bool   `json:"str,omitempty"`
+}
+
+var checkLongItem = register("c16.longitem", func(c LongItemCase) *Violation {
+	text := c.Head + strings.Repeat("0", c.Zeros) + c.Tail
+	what := fmt.Sprintf("%s + %d x \"0\" + %s", c.Head, c.Zeros, c.Tail)
+	var item any = json.Number(text)
+	if c.Str {
+		item = text
+	}
+	run := func(m string) Outcome {
+		p, _, _ := ParseSafe("$" + m)
+		return RunQuery(context.Background(), p, item)
+	}
+	d := run(".double()")
+	if d.Panic != "" {
+		return violf(".double() on %s panicked: %.200s", what, d.Panic)
+	}
+	if d.Class != EOK || len(d.Items) != 1 {
+		return nil
+	}
+	f, ok := d.Items[0].(float64)
+	if !ok || math.Abs(f) > 1e9 {
+		return nil
+	}
+	for _, m := range []string{".integer()", ".bigint()", ".number()", ".decimal()", ".decimal(12,1)"} {
+		if c.Str && m == ".integer()" || c.Str && m == ".bigint()" {
+			continue // a string must be an integer literal for these two
+		}
+		o := run(m)
+		if o.Panic != "" {
+			return violf("%s on %s panicked: %.200s", m, what, o.Panic)
+		}
+		if o.Class != EOK || len(o.Items) != 1 {
+			return violf(".double() reads the item %s as %v, but %s returned %.300s", what, f, m, o.String())
+		}
+		r, isNum := asNum(o.Items[0])
+		if !isNum || math.Abs(r.float()-f) > 1 {
+			return violf(".double() reads the item %s as %v, but %s returned %s", what, f, m, Render(o.Items[0], false))
+		}
+	}
+	return nil
+})
+
 func TestC16(t *testing.T) {
 	ev := newEv(t, "C16")
 	c16Ev = ev
 	ev.replayTier(t)
 	_ = ev.quirk("keyvalue_id_equidistant_collision") // prints the KNOWN-FINDING line while the finding reproduces
 	_ = ev.quirk("keyvalue_ids_via_variable_follow_vars_map")
+	t.Run("long_items", func(t *testing.T) {
+		b := ev.enum(t)
+		var cs []LongItemCase
+		for _, z := range []int{1000, 1000001} {
+			for _, str := range []bool{false, true} {
+				cs = append(cs, LongItemCase{"1.5", z, "", str}, LongItemCase{"-2.5", z, "1", str}, LongItemCase{"7.", z, "e0", str}, LongItemCase{"0.", z, fmt.Sprintf("25e%d", z+2), str})
+			}
+		}
+		for i, c := range cs {
+			if !mine(i) {
+				continue
+			}
+			ev.Eval(fmt.Sprintf("longitem:%s:%d:%s:%v", c.Head, c.Zeros, c.Tail, c.Str), true)
+			ev.Sample("long_items", c)
+			if !b.Check("c16.longitem", c, checkLongItem(c)) {
+				return
+			}
+		}
+		ev.Exhaustive("number_items_of_a_thousand_and_a_million_digits", int64(len(cs)))
+	})
 	t.Run("grid", func(t *testing.T) {
 		b := ev.enum(t)
 		cs := methodGrid()
